@@ -88,12 +88,12 @@ def C12_parse_plume_wellformed_full (R : Type) [Scalar R] : Prop :=
 /-- **C12** with C13: queries on a parsed plume never index out of range -/
 theorem C12_parsed_plume_safe (ctx : Ctx R) (c : Cur) (tags tags' : List String) (st st' : List (SurfaceAux R))
     (f : PlumeFeature R) (h : parsePlume ctx c tags st = .ok ((f, tags'), st')) (hschema : SchemaCoordinatesMinItems1 c)
-    (qctx : Ctx R) (q : Query R) :
+    (qctx : Ctx R) (q : Query R) (hq : q.worldT () ≠ .error .internal) :
     f.covers qctx q ≠ .error .internal ∧
       ∀ (ps : List Req) (bs : List (List R)), Fits ps bs → ∀ g : G,
         f.apply qctx q (ps.zip (entries ps)) bs.flatten g ≠ .error .internal := by
   have hw := C12_parse_plume_wellformed ctx c tags tags' st st' f h hschema
-  exact ⟨f.covers_noInt qctx q hw.1, fun ps bs hfit g => (Feature.plume f).apply_noInt hw qctx q ps bs hfit g⟩
+  exact ⟨f.covers_noInt qctx q hw.1, fun ps bs hfit g => (Feature.plume f).apply_noInt hw qctx q hq ps bs hfit g⟩
 
 /-! #### concrete documents -/
 
@@ -174,13 +174,14 @@ theorem C12_parse_line_wellformed (ctx : Ctx R) (isFault : Bool) (c : Cur) (tags
 
 /-- **C12** with C13: queries on a parsed slab / fault never index out of range -/
 theorem C12_parsed_line_safe (ctx : Ctx R) (isFault : Bool) (c : Cur) (tags tags' : List String) (cull : Bool)
-    (f : LineFeature R) (h : parseLine ctx isFault c tags cull = .ok (f, tags')) (qctx : Ctx R) (q : Query R) :
+    (f : LineFeature R) (h : parseLine ctx isFault c tags cull = .ok (f, tags')) (qctx : Ctx R) (q : Query R)
+    (hq : q.worldT () ≠ .error .internal) :
     f.covers qctx q ≠ .error .internal ∧
       (∀ (ps : List Req) (bs : List (List R)), Fits ps bs → ∀ g : G,
         f.apply qctx q (ps.zip (entries ps)) bs.flatten g ≠ .error .internal) ∧
       f.distanceToPlane qctx q ≠ .error .internal := by
   have hw := C12_parse_line_wellformed ctx isFault c tags tags' cull f h
-  exact ⟨(f.covers_safe hw qctx q).noInt, fun ps bs hfit g => (Feature.line f).apply_noInt hw qctx q ps bs hfit g,
+  exact ⟨(f.covers_safe hw qctx q).noInt, fun ps bs hfit g => (Feature.line f).apply_noInt hw qctx q hq ps bs hfit g,
     f.distanceToPlane_noInt hw qctx q⟩
 
 /-- the part of the generated declarations of `fault` that `parseLine` reads for a document without models and sections -/
